@@ -70,7 +70,7 @@ struct XMinify : Engine {
             if (stage == "uniform") { for (int f = 0; f < NGAPS; f++) { if (!pool_take()) continue; run_text(1, join(t, std::vector<int>(g, f)), &t); } }
             else if (stage == "single") { for (size_t p = 0; p < g; p++) for (int f = 1; f < NGAPS; f++) { if (!pool_take()) continue; std::vector<int> gp(g, 0); gp[p] = f; run_text(1, join(t, gp), &t); } }
             else if (stage == "pairs") { if (sb % 4) continue; for (size_t p = 0; p < g; p++) for (size_t q = p + 1; q < g; q++) for (int f = 1; f < NGAPS; f++) for (int h = 1; h < NGAPS; h++) { if (!pool_take()) continue; std::vector<int> gp(g, 0); gp[p] = f; gp[q] = h; run_text(1, join(t, gp), &t); } }
-            else if (stage == "allgaps") { if (g > (cfg.thorough() ? 6u : 5u)) continue; const int NG = g >= 6 ? 12 : NGAPS;   /* six gaps: the first 12 fillers (the later ones are covered by uniform / single / pairs and by up to five gaps) */ std::vector<int> od(g, 0); for (;;) { if (pool_take()) run_text(1, join(t, od), &t); int i = (int)g - 1; while (i >= 0 && ++od[i] == NG) od[i--] = 0; if (i < 0) break; } }
+            else if (stage == "allgaps") { if (g > (cfg.thorough() ? 6u : 5u)) continue; const int NG = g >= 6 ? 10 : NGAPS;   /* six gaps: the first 10 fillers (the later ones are covered by uniform / single / pairs and by up to five gaps) */ std::vector<int> od(g, 0); for (;;) { if (pool_take()) run_text(1, join(t, od), &t); int i = (int)g - 1; while (i >= 0 && ++od[i] == NG) od[i--] = 0; if (i < 0) break; } }
         }
     }
 
